@@ -30,6 +30,7 @@ global size_of usize == 8;
 //    from the `for`'s closing brace on is dropped.  Kept: the whole `'section: loop { .. }`.
 // =====================================================================================
 //@extract fn bigtools/src/utils/merge.rs next
+//@rule R16
 //@presub /\Afn next\(&mut self\) -> Option<Self::Item> \{.*?vec!\[0(f\d+); DATA_SIZE\];.*?'sections: for \(section, last\) in &mut self\.sections \{[ \t]*\n/ => fn next_section(section: &mut VIter, last: &mut Option<Value>, data: &mut Vec<\1>, current_start: u32, max_data_len0: usize, max_sections0: usize, all_none0: bool, self_error: &mut bool, Ghost(k): Ghost<int>) -> (r: (usize, usize, bool, Option<MergeError>)) {\n
 //@presub /\n[ \t]*\}\s*(?://[^\n]*\s*)*let mut next_sections: Vec<Value>.*\Z/ => \n}
 //@presub /(\*i\s*[-+*]?=[^;\n]*?)[ \t]*\n(\s*\})/ => \1;\n\2 min=0
@@ -193,6 +194,7 @@ global size_of usize == 8;
 //    `let insert_into_queue = ..`; everything before and after is cut away by the two presubs.
 // =====================================================================================
 //@extract fn bigtools/src/utils/merge.rs next
+//@rule R16
 //@presub /\Afn next\(&mut self\) -> Option<Self::Item> \{.*?vec!\[0(f\d+); DATA_SIZE\];.*?\n(?=[ \t]*let mut next_sections: Vec<Value>)/ => fn rle(data: &Vec<\1>, max_data_len: usize, current_start: u32, max_sections: usize) -> (out: (Vec<Value>, Ghost<Seq<(int, int)>>)) {\n
 //@presub /\n[ \t]*let insert_into_queue = .*\Z/ => \n}
 //@rule R5
@@ -279,6 +281,7 @@ global size_of usize == 8;
 // =====================================================================================
 #[verifier::loop_isolation(false)]
 //@extract closure bigtools/src/utils/merge.rs next insert_into_queue
+//@rule R16
 //@header fn insert_into_queue(queue: &mut Vec<Value>, next_val: Value)
 //@rule R6
 //@sub /for \(idx, queued\) in queue\.iter_mut\(\)\.enumerate\(\) \{/ => let mut idx: usize = 0; while idx < queue.len() {
@@ -355,6 +358,7 @@ spec fn live_inv(it: ValueIter) -> bool {
 
 impl ValueIter {
 //@extract method bigtools/src/utils/merge.rs next "Iterator for ValueIter"
+//@rule R16
 //@presub /'sections: for \(section, last\) in &mut self\.sections \{.*?\n(?=[ \t]*let mut next_sections: Vec<Value>)/ => let acc = accumulate_sections(&mut self.sections, &mut data, current_start, max_data_len, max_sections, all_none, &mut self.error);\n            max_data_len = acc.0; max_sections = acc.1; all_none = acc.2;\n            if let Some(e) = acc.3 { return Some(Err(e)); }\n
 //@presub /let mut next_sections: Vec<Value> = Vec::with_capacity.*?\n(?=[ \t]*let insert_into_queue = )/ => let rle_out = rle(&data, max_data_len, current_start, max_sections);\n            let mut next_sections: Vec<Value> = rle_out.0;\n
 //@presub /let insert_into_queue = \|.*?\n(?=[ \t]*let last_val = self\.last_val\.take\(\);)/ => ""
@@ -524,6 +528,7 @@ impl ValueIter {
 
 // ---------------- the constructor: establishes the state invariant for the first call ----------------
 //@extract fn bigtools/src/utils/merge.rs merge_sections_many
+//@rule R16
 //@rule R8
 //@sub /pub fn merge_sections_many<I, E>\(sections: Vec<I>\) -> impl Iterator<Item = Result<Value, E>> \+ Send\s*where\s*I: Iterator<Item = Result<Value, E>> \+ Send,/ => fn merge_sections_many(sections: Vec<VIter>) -> (r: ValueIter)
 //@sub /sections\.into_iter\(\)\.map\(\|s\| \(s, None\)\)\.collect\(\)/ => pair_with_none(sections) min=0
